@@ -96,7 +96,9 @@ func c06Build(w *c06World) {
 		return r(v)
 	}
 
+	var lastBuilt MV
 	fold := func(pos ast.Node, body []ast.Stmt, fdType *ast.FuncType, recvName *ast.Ident, node *MSym, operands map[MV]MV) (string, error) {
+		lastBuilt = nil
 		m := w.mini(w.pb)
 		m.Call = func(m *Mini, call *ast.CallExpr, fn *types.Func, recv MV, args []MV) ([]MV, bool) {
 			if fn == nil {
@@ -153,6 +155,7 @@ func c06Build(w *c06World) {
 		if !returned || panicked || len(res) != 1 {
 			return "", fmt.Errorf("does not return an expression")
 		}
+		lastBuilt = res[0]
 		return render(res[0]), nil
 	}
 	skipDefers := func(list []ast.Stmt) []ast.Stmt {
@@ -175,13 +178,18 @@ func c06Build(w *c06World) {
 	type row struct {
 		op, want string
 		right    string // "", "tuple", "subquery"
+		sem      func(t *c06Terms, l, r *MSym) *MSym
+	}
+	bin := func(tn string) func(t *c06Terms, l, r *MSym) *MSym {
+		return func(t *c06Terms, l, r *MSym) *MSym { return t.mk(tn, l, r) }
 	}
 	rows := []row{
-		{"EqualStr", "Equals(l,r)", ""}, {"LessThanStr", "LessThan(l,r)", ""}, {"LessEqualStr", "LessThanOrEqual(l,r)", ""},
-		{"GreaterThanStr", "GreaterThan(l,r)", ""}, {"GreaterEqualStr", "GreaterThanOrEqual(l,r)", ""},
-		{"NullSafeEqualStr", "NullSafeEquals(l,r)", ""}, {"NotEqualStr", "Not(Equals(l,r))", ""},
-		{"InStr", "InTuple(l,r)", "tuple"}, {"InStr", "InSubquery(l,r)", "subquery"},
-		{"NotInStr", "NotInTuple(l,r)", "tuple"}, {"NotInStr", "NotInSubquery(l,r)", "subquery"},
+		{"EqualStr", "Equals(l,r)", "", bin("Equals")}, {"LessThanStr", "LessThan(l,r)", "", bin("LessThan")}, {"LessEqualStr", "LessThanOrEqual(l,r)", "", bin("LessThanOrEqual")},
+		{"GreaterThanStr", "GreaterThan(l,r)", "", bin("GreaterThan")}, {"GreaterEqualStr", "GreaterThanOrEqual(l,r)", "", bin("GreaterThanOrEqual")},
+		{"NullSafeEqualStr", "NullSafeEquals(l,r)", "", nil},
+		{"NotEqualStr", "Not(Equals(l,r))", "", func(t *c06Terms, l, r *MSym) *MSym { return t.mk("Not", t.mk("Equals", l, r)) }},
+		{"InStr", "InTuple(l,r)", "tuple", nil}, {"InStr", "InSubquery(l,r)", "subquery", nil},
+		{"NotInStr", "NotInTuple(l,r)", "tuple", nil}, {"NotInStr", "NotInSubquery(l,r)", "subquery", nil},
 	}
 	for _, rw := range rows {
 		key := "buildComparison/" + rw.op
@@ -209,10 +217,24 @@ func c06Build(w *c06World) {
 			c.Undecided("C06-PB", key, cfd.Pos(), err.Error())
 			continue
 		}
-		c.Check(got == rw.want, "C06-PB", key, cfd.Pos(), got, fmt.Sprintf("operator %s (%s) builds %s; it must build %s", rw.op, constant.StringVal(opv), got, rw.want))
+		same := got == rw.want
+		if !same && rw.sem != nil {
+			// an equivalent spelling (e.g. b >= a for a <= b) has the same table over the outcomes of comparing l with r
+			same = true
+			wantTerm := rw.sem(t, l, r)
+			for _, o := range []c06Out{c06Lt, c06Eq, c06Gt, c06Null} {
+				asg := c06Asg{cmp: map[[2]*MSym]c06Out{{l, r}: o}}
+				vw, err1 := t.eval(wantTerm, asg)
+				vg, err2 := t.eval(lastBuilt, asg)
+				if err1 != nil || err2 != nil || vw != vg {
+					same = false
+				}
+			}
+		}
+		c.Check(same, "C06-PB", key, cfd.Pos(), got, fmt.Sprintf("operator %s (%s) builds %s; it must build %s", rw.op, constant.StringVal(opv), got, rw.want))
 	}
 	// BETWEEN / NOT BETWEEN
-	for _, rw := range []row{{"BetweenStr", "Between(val,lower,upper)", ""}, {"NotBetweenStr", "Not(Between(val,lower,upper))", ""}} {
+	for _, rw := range []row{{"BetweenStr", "Between(val,lower,upper)", "", nil}, {"NotBetweenStr", "Not(Between(val,lower,upper))", "", nil}} {
 		key := "buildScalar/RangeCond/" + rw.op
 		opv, ok := constStr(rw.op)
 		if !ok {
